@@ -14,6 +14,8 @@ structure Node where
   room_id : Option Id
   key : Key
   mdate : Int
+  /-- the short entity name (the same abstraction as `entity_name`: the data model maps one to the other) -/
+  _entity : Ent
   size : Except Unit Nat
 deriving Repr
 
@@ -21,6 +23,7 @@ structure NodeToInsert where
   node : Option Node
   entity_name : Option Ent
   old_room_id : Option Id
+  old_entity : Option Ent
   old_mdate : Int
   old_verifying_key : Option Key
 deriving Repr
